@@ -131,6 +131,9 @@ def gen_cfg(rng, structure=None):
             cfg["damage"] = (cfg.get("damage") or []) + [[rng.randint(0, nres - 1), "icode"]]
         if rng.random() < 0.10:
             cfg["bad_records"] = sorted(rng.sample(range(11), rng.randint(1, 4)))
+        if rng.random() < 0.15 and not cfg.get("chains"):
+            # OXT on the last residue: no heavy atom is missing, so the repair pass is skipped
+            cfg["damage"] = (cfg.get("damage") or []) + [[nres - 1, "add_oxt"]]
         if rng.random() < 0.12:
             cfg["renumber"] = rng.choice([-40, -300, 9000, 5000, 1])
         if cfg.get("waters") and rng.random() < 0.2:
